@@ -3,11 +3,18 @@
    example.  Definitions: Model/Numeric.v (transcription of src/numeric.rs and of the
    Trace / Record impls), Proofs/C19P.v.
    `all_ity` = [u8 i8 u16 i16 u32 i32 u64 i64 u128 i128 usize isize]; counts are usize values
-   (n < 2^64).  The "four owned/borrowed operand forms agree" and "user types work in every
-   generic routine" clauses are decided by the correspondence check (harness/src/c19.rs and the
-   Rat / Fp instantiations of every other property's harness). *)
-From Coq Require Import List ZArith NArith Bool Ring_theory.
-From EasyML Require Import Base.Sx Model.Num Model.Tape Model.Numeric Proofs.C19P.
+   (n < 2^64).  The "four owned/borrowed operand forms agree" clause for the PRIMITIVE types
+   (std's impls) is decided by the correspondence check (harness/src/c19.rs); for Trace / Record
+   it is C19_wrapper_forms_agree.  "User types work in every generic routine": the
+   division-bearing routines follow their documented formula for every dictionary of operations
+   (C19_user_type_*, session 3; instantiated in the correspondence at Rat, Fp, Wrapping<i64>, the
+   user-defined whole-number type `Whole` and i64 — case (19 12 ..)); the remaining routines are
+   instantiated at Rat / Fp by the other properties' harnesses and by cases (19 5) (19 6) (19 10)
+   (19 13) — the audit table is in notes/C03_C19.md. *)
+From Coq Require Import List ZArith NArith QArith Bool Ring_theory.
+From EasyML Require Import Base.Sx Model.Num Model.Tape Model.Numeric Proofs.C19P
+     Gen.ArithNumeric Proofs.GenNumericP.
+From EasyML Require Import Model.Stats Model.Whole Proofs.C19U.
 Import ListNotations.
 Open Scope Z_scope.
 
@@ -176,6 +183,76 @@ Proof.
   vm_compute. repeat split.
 Qed.
 
+(* ---- "any user type supplying the same operations can be used as an element type ... and the
+   library's result on it is identical to evaluating the documented formula directly on that
+   type" (session 3).  For EVERY dictionary of operations — no algebraic law assumed, so also
+   for element types that are not fields (integers, Wrapping / Saturating integers, a user-defined
+   whole-number type: a / n and a * (1 / n) differ there) — the division-bearing generic routines
+   compute the documented formula with the type's own + - * /, in the documented order.
+   sum_of / count_of: left folds from T::zero() (count adds T::one() per item);
+   covariance_formula n xs ys = sum((x - sum xs / n) * (y - sum ys / n)) / n. ---- *)
+Theorem C19_user_type_mean_variance : forall R (ops : numops R) (l : list R), l <> [] ->
+  mean ops l = Ok (ndiv ops (sum_of ops l) (count_of ops l)) /\
+  variance ops l = Ok (variance_formula ops l) /\
+  variance_formula ops l =
+    mean_formula ops (map (fun x => nmul ops (nsub ops x (mean_formula ops l))
+                                             (nsub ops x (mean_formula ops l))) l).
+Proof.
+  intros R ops l H. split; [exact (any_type_mean ops l H)|].
+  split; [exact (any_type_variance ops l H)|reflexivity].
+Qed.
+
+Theorem C19_user_type_covariance : forall R (ops : numops R) (m : list (list R)),
+  (forall n, nof_N ops (N.of_nat (mrows m)) = Some n ->
+     exists t, covariance_column_features ops m = Ok t /\
+       forall i j, (i < mcols m)%nat -> (j < mcols m)%nat ->
+         nth j (nth i t []) (nzero ops) =
+         covariance_formula ops n (column_iter ops m i) (column_iter ops m j)) /\
+  (forall n, nof_N ops (N.of_nat (mcols m)) = Some n ->
+     exists t, covariance_row_features ops m = Ok t /\
+       forall i j, (i < mrows m)%nat -> (j < mrows m)%nat ->
+         nth j (nth i t []) (nzero ops) = covariance_formula ops n (row_iter m i) (row_iter m j)) /\
+  (forall n0 n1 n, nof_N ops (N.of_nat (mcols m)) = Some n ->
+     exists t, covariance ops (n0, n1) m n0 =
+                 Ok ((name_i, N.of_nat (mrows m)), (name_j, N.of_nat (mrows m)), t) /\
+       forall i j, (i < mrows m)%nat -> (j < mrows m)%nat ->
+         nth j (nth i t []) (nzero ops) = covariance_formula ops n (row_iter m i) (row_iter m j)) /\
+  (forall n0 n1 n, n0 <> n1 -> nof_N ops (N.of_nat (mrows m)) = Some n ->
+     exists t, covariance ops (n0, n1) m n1 =
+                 Ok ((name_i, N.of_nat (mcols m)), (name_j, N.of_nat (mcols m)), t) /\
+       forall i j, (i < mcols m)%nat -> (j < mcols m)%nat ->
+         nth j (nth i t []) (nzero ops) =
+         covariance_formula ops n (column_iter ops m i) (column_iter ops m j)).
+Proof. exact @any_type_covariance. Qed.
+
+Theorem C19_user_type_f1 : forall R (ops : numops R) p r,
+  f1_score ops p r =
+  nmul ops (nadd ops (none_ ops) (none_ ops)) (ndiv ops (nmul ops p r) (nadd ops p r)).
+Proof. exact @any_type_f1. Qed.
+
+(* non-vacuity: the whole-number type is an instance that is not a field — 7 / 2 = 3 but
+   7 * (1 / 2) = 0 — and on it the formulas give the textbook integers, not zeros *)
+Example C19_user_type_nonvacuous :
+  ndiv Wholeops 7 2 = 3 /\ nmul Wholeops 7 (ndiv Wholeops 1 2) = 0 /\
+  covariance_column_features Wholeops [[2; 1]; [4; 3]; [6; 2]; [8; 6]] = Ok [[5; 3]; [3; 3]] /\
+  covariance Wholeops (0%nat, 1%nat) [[2; 1]; [4; 3]; [6; 2]; [8; 6]] 1%nat =
+    Ok ((name_i, 2%N), (name_j, 2%N), [[5; 3]; [3; 3]]) /\
+  mean Wholeops [1; 2; 4] = Ok 2 /\ variance Wholeops [1; 2; 4; 9] = Ok 9 /\
+  (let rcp := ndiv Wholeops 1 4 in nmul Wholeops (sum_of Wholeops [2; 4; 6; 8]) rcp = 0) /\
+  covariance_formula Wholeops 4 [2; 4; 6; 8] [1; 3; 2; 6] = 3.
+Proof. exact whole_is_not_a_field. Qed.
+
+(* Pi for f32 / f64: the bit patterns the model names are the floats nearest to pi — every real
+   of [3.14159265358979323, 3.14159265358979324] lies within half an ulp of the denoted value *)
+Theorem C19_pi_bits_nearest :
+  (ieee_value 23 127 pi_bits_f32 == 13176795 # 4194304)%Q /\
+  (ieee_value 23 127 pi_bits_f32 - (1 # 8388608) < pi_lo)%Q /\
+  (pi_hi < ieee_value 23 127 pi_bits_f32 + (1 # 8388608))%Q /\
+  (ieee_value 52 1023 pi_bits_f64 == 884279719003555 # 281474976710656)%Q /\
+  (ieee_value 52 1023 pi_bits_f64 - (1 # 4503599627370496) < pi_lo)%Q /\
+  (pi_hi < ieee_value 52 1023 pi_bits_f64 + (1 # 4503599627370496))%Q.
+Proof. exact pi_bits_nearest. Qed.
+
 (* non-vacuity: i8 accepts 127 and refuses 128; i128's MAX truncates to usize::MAX so that the
    largest count is accepted and round-trips; wrapping i8 arithmetic wraps, saturating clamps *)
 Example C19_nonvacuous :
@@ -209,3 +286,28 @@ Print Assumptions C19_trace_constants_closed.
 Print Assumptions C19_trace_identities.
 Print Assumptions C19_trace_neg_spec.
 Print Assumptions C19_record_identities.
+Print Assumptions C19_user_type_mean_variance.
+Print Assumptions C19_user_type_covariance.
+Print Assumptions C19_user_type_f1.
+Print Assumptions C19_pi_bits_nearest.
+
+(* ---- appended by the translator builder (notes/GEN.md) ----
+   Gen/ArithNumeric.v is REGENERATED from src/numeric.rs by tools/gen_arith.py before the proof
+   layer runs (tools/props/c19.py pre_proof): the body of from_usize_integral! (translated once,
+   the macro's type metavariable as the parameter), of from_usize_float!, of the Wrapping /
+   Saturating impls, and the lists of types the macros are invoked at.  Re-proved on every run:
+   the translated bodies ARE the hand-written from_usize / from_usize_float / from_usize_wrapper
+   the theorems above are about, and the integral macro is instantiated at exactly all_ity. *)
+Theorem C19_generated_from_usize_matches_model :
+  (forall t n, gen_from_usize_integral t n = from_usize t n) /\
+  (forall t, In t gen_from_usize_integral_types <-> In t all_ity) /\
+  (forall n, gen_from_usize_float n = from_usize_float n) /\
+  (forall b, In b gen_from_usize_float_types <-> (b = 32 \/ b = 64)%N) /\
+  (forall t n, gen_from_usize_Wrapping (from_usize t) n = from_usize_wrapper t n /\
+               gen_from_usize_Saturating (from_usize t) n = from_usize_wrapper t n).
+Proof.
+  split; [exact gen_from_usize_integral_eq|]. split; [exact gen_from_usize_integral_types_eq|].
+  split; [exact gen_from_usize_float_eq|]. split; [exact gen_from_usize_float_types_eq|].
+  exact gen_from_usize_wrappers_eq.
+Qed.
+Print Assumptions C19_generated_from_usize_matches_model.
